@@ -1752,6 +1752,19 @@ func (ctx *RenderContext) evaluateBinaryOp(operator string, left, right interfac
 	return nil, fmt.Errorf("unsupported binary operator: %s", operator)
 }
 
+// isHashableValue reports whether v can safely be used as a key of a map[interface{}]…
+// (lists, maps and funcs cannot; composite values are left to the linear search)
+func isHashableValue(v interface{}) bool {
+	if v == nil {
+		return true
+	}
+	switch reflect.TypeOf(v).Kind() {
+	case reflect.Slice, reflect.Map, reflect.Func, reflect.Struct, reflect.Array, reflect.Interface:
+		return false
+	}
+	return true
+}
+
 // contains checks if a value is contained in a container (string, slice, array, map)
 func (ctx *RenderContext) contains(container, item interface{}) (bool, error) {
 	if container == nil {
@@ -1766,7 +1779,12 @@ func (ctx *RenderContext) contains(container, item interface{}) (bool, error) {
 	case []interface{}:
 		// For small slices, linear search is fine
 		// For larger slices (>50 items), consider a map-based approach
-		if len(c) > 50 {
+		// (only when every value involved can be a map key: lists, maps and funcs cannot)
+		useMap := len(c) > 50 && isHashableValue(item)
+		for i := 0; useMap && i < len(c); i++ {
+			useMap = isHashableValue(c[i])
+		}
+		if useMap {
 			// Create a temporary map for O(1) lookups
 			// Only worth doing for sufficiently large slices
 			tempMap := make(map[interface{}]struct{}, len(c))
@@ -1814,7 +1832,11 @@ func (ctx *RenderContext) contains(container, item interface{}) (bool, error) {
 		return strings.Contains(rv.String(), ctx.ToString(item)), nil
 	case reflect.Array, reflect.Slice:
 		// Optimize for large slices/arrays
-		if rv.Len() > 50 {
+		useMap := rv.Len() > 50 && isHashableValue(item)
+		for i := 0; useMap && i < rv.Len(); i++ {
+			useMap = isHashableValue(rv.Index(i).Interface())
+		}
+		if useMap {
 			// Same map-based optimization as above
 			tempMap := make(map[interface{}]struct{}, rv.Len())
 			for i := 0; i < rv.Len(); i++ {
